@@ -22,23 +22,55 @@ from ..report import VERIF
 REF = os.path.join(VERIF, 'spec', 'signatures.json')
 
 
-def default_repr(node):
+def _named_constant(node, scopes):
+    """the literal a default such as DEFAULT_HIGH_VALUE / Cls.DEFAULT_HIGH_VALUE denotes: the name is bound exactly once, to a
+    literal, in the enclosing class body or at module level (defaults are evaluated when the function is defined)"""
+    if isinstance(node, ast.Attribute) and isinstance(node.value, ast.Name):
+        name = node.attr
+    elif isinstance(node, ast.Name):
+        name = node.id
+    else:
+        return None
+    for body in scopes:
+        hits = []
+        for st in body:
+            if not isinstance(st, ast.Assign):
+                continue
+            for t in st.targets:
+                if isinstance(t, ast.Name) and t.id == name:
+                    hits.append(st.value)
+                elif isinstance(t, (ast.Tuple, ast.List)) and isinstance(st.value, (ast.Tuple, ast.List)) and \
+                        len(t.elts) == len(st.value.elts):
+                    hits += [v for te, v in zip(t.elts, st.value.elts) if isinstance(te, ast.Name) and te.id == name]
+                elif isinstance(t, (ast.Tuple, ast.List)) and any(isinstance(te, ast.Name) and te.id == name for te in t.elts):
+                    hits.append(None)
+        if len(hits) == 1 and hits[0] is not None:
+            try:
+                return {'lit': repr(ast.literal_eval(hits[0]))}
+            except Exception:
+                return None
+        if hits:
+            return None
+    return None
+
+
+def default_repr(node, scopes=()):
     if node is None:
         return None
     try:
         return {'lit': repr(ast.literal_eval(node))}
     except Exception:
-        return {'expr': ast.unparse(node)}
+        return _named_constant(node, scopes) or {'expr': ast.unparse(node)}
 
 
-def signature_of(fn):
+def signature_of(fn, scopes=()):
     a = fn.args
     pos = [x.arg for x in a.posonlyargs + a.args]
     nd = len(a.defaults)
-    defaults = [None] * (len(pos) - nd) + [default_repr(d) for d in a.defaults]
+    defaults = [None] * (len(pos) - nd) + [default_repr(d, scopes) for d in a.defaults]
     return {'pos': pos, 'defaults': defaults, 'vararg': a.vararg.arg if a.vararg else None,
             'kwonly': [x.arg for x in a.kwonlyargs],
-            'kwdefaults': [default_repr(d) for d in a.kw_defaults],
+            'kwdefaults': [default_repr(d, scopes) for d in a.kw_defaults],
             'kwarg': a.kwarg.arg if a.kwarg else None}
 
 
@@ -50,11 +82,11 @@ def public_callables(prog):
             continue
         for st in m.tree.body:
             if isinstance(st, ast.FunctionDef) and not st.name.startswith('_'):
-                out['%s::%s' % (m.name, st.name)] = (st, m.relpath)
+                out['%s::%s' % (m.name, st.name)] = (st, m.relpath, (m.tree.body,))
             elif isinstance(st, ast.ClassDef) and not st.name.startswith('_'):
                 for x in st.body:
                     if isinstance(x, ast.FunctionDef) and (not x.name.startswith('_') or x.name in ('__init__', '__call__')):
-                        out['%s::%s.%s' % (m.name, st.name, x.name)] = (x, m.relpath)
+                        out['%s::%s.%s' % (m.name, st.name, x.name)] = (x, m.relpath, (st.body, m.tree.body))
     return out
 
 
@@ -123,8 +155,8 @@ def rule_signatures(ctx, rule='R00.sig', files=None):
             # a removed or renamed public callable: callers get AttributeError / ImportError
             ctx.violation(rule, q, 'removed', 'public callable of the reference interface no longer exists', r['file'])
             continue
-        fn, rel = cur[q]
-        bad, und = compare(r['sig'], signature_of(fn))
+        fn, rel, scopes = cur[q]
+        bad, und = compare(r['sig'], signature_of(fn, scopes))
         if bad:
             ctx.violation(rule, q, 'signature', '; '.join(bad), '%s:%d' % (rel, fn.lineno))
         elif und:
